@@ -161,6 +161,10 @@ class MCarry(Monitor):
         if kind == "channel_closed_by_broker" and op.get("code") == 406 and w.step_no > 0:
             self.flag(w, "bad_ack", op.get("text"), None, op.get("site"))
             return
+        if kind == "ack_multiple" and w.step_no > 0:
+            self.flag(w, "ack_covers_other_deliveries", "one basic_ack(delivery_tag=%s, multiple=True) acknowledged %d deliveries (%s)" % (
+                op.get("delivery_tag"), len(op.get("tags") or []), ", ".join(op.get("queues") or [])), None, op.get("site"))
+            return
         if kind not in ("ack", "expired") or not self.running:
             return
         have = self.carried(w)
@@ -1326,6 +1330,10 @@ class MRoute(Monitor):
                 self._flag(w, ("rdel", cid), "reply_delivered_to_other_instance", "the reply to a request of %s was delivered to %s" % (self.requests[cid], conn), None, None)
         elif k == "ack" and op.get("queue", "").startswith("asl_workflow_events"):
             self.unacked_events.get(op.get("connection"), {}).pop(op.get("message_id"), None)
+        elif k == "ack_multiple" and w.step_no > 0:
+            # "acknowledging a message acknowledges that delivery and no other"
+            self._flag(w, ("ackmulti", op.get("connection")), "ack_covers_other_deliveries", "one acknowledgement (delivery_tag=%s, multiple) acknowledged %d deliveries on %s" % (
+                op.get("delivery_tag"), len(op.get("tags") or []), ", ".join(op.get("queues") or [])), None, op.get("site"))
 
     def state(self):
         return [sorted(self.owner.items()), sorted(map(str, self.flagged))]
